@@ -37,7 +37,11 @@ Definition pair (a b : bytes) : string :=
       hex (add_origin a b);
       show_rbytes (trim_domain_name a b) ].
 
+Definition pairraw (a b : bytes) : string :=
+  join ";"%string [ show_rn (compare_domain_name a b); show_rb (is_sub_domain a b) ].
+
 Definition run (fn : string) (args : list string) : string :=
   if String.eqb fn "uni" then uni (unhex (arg args 0))
+  else if String.eqb fn "pairraw" then pairraw (unhex (arg args 0)) (unhex (arg args 1))
   else if String.eqb fn "pair" then pair (unhex (arg args 0)) (unhex (arg args 1))
   else "unknown-fn"%string.
